@@ -128,6 +128,17 @@ def fam_c07(tier, seed):
                 sc["tags"] = ["queue", "same-instant", "demote", "recv:" + "+".join(combo)]
                 scs.append(sc)
                 k += 1
+    # several pipelined requests of one connection arriving while a single timed receiver is in (or near) its
+    # give-up window: it must still get them in wire order
+    for combo in (("timed1",), ("timedloop",)):
+        for off in (T * MS - 300_000, T * MS - 800_000, T * MS, T * MS - 1_500_000):
+            for nreq in (2, 3):
+                apps = [recvs[r]() for r in combo]
+                cc = [simple_conn(0, nreq, at_ns=off)]
+                sc = scenario("C07-p%03d" % k, "C07", cc, apps, horizon_ms=4 * T + 20, single=True)
+                sc["tags"] = ["queue", "pipelined-at-giveup", "demote", "recv:" + "+".join(combo)]
+                scs.append(sc)
+                k += 1
     for combo, conns in plans:
         apps = [recvs[r]() for r in combo]
         cc = [simple_conn(c, nreq, at_ns=off, gap_ns=rng.choice([0, 0, 400_000])) for c, (off, nreq) in enumerate(conns)]
@@ -818,6 +829,10 @@ def _bad_heads():
         ("ver-http11", "r400", b"GET @URL@ HTTP/11\r\nHost: x\r\n\r\n"),
         ("no-colon", "r400", b"GET @URL@ HTTP/1.1\r\nHost x\r\n\r\n"),
         ("no-colon-2nd", "r400", b"GET @URL@ HTTP/1.1\r\nHost: x\r\nBroken\r\n\r\n"),
+        # a header line that consists of whitespace only is a header line without a colon, not the end of the head
+        ("ws-only-line-last", "r400", b"GET @URL@ HTTP/1.1\r\nHost: x\r\n \r\n\r\n"),
+        ("ws-only-line-mid", "r400", b"GET @URL@ HTTP/1.1\r\nHost: x\r\n\t\r\nX-After: 1\r\n\r\n"),
+        ("ws-only-line-first", "r400", b"POST @URL@ HTTP/1.1\r\n  \t \r\nHost: x\r\nContent-Length: 5\r\n\r\nhello"),
         ("nonascii-line", "close", b"GET @URL@\xc3\xa9 HTTP/1.1\r\nHost: x\r\n\r\n"),
         ("nonascii-name", "close", b"GET @URL@ HTTP/1.1\r\nH\xf6st: x\r\n\r\n"),
         ("nonascii-value", "close", b"GET @URL@ HTTP/1.1\r\nHost: \xff\xfe\r\n\r\n"),
@@ -884,6 +899,10 @@ def fam_c16(tier, seed):
             heads.append(("ws-in-name:%s:%r" % (hname, ws), "GET @URL@ HTTP/1.1\r\nHost: x\r\n%s%s%s: %s\r\n\r\n" % (hname[:3], ws, hname[3:], hval), "name-ws"))
             heads.append(("ws-before-colon:%s:%r" % (hname, ws), "GET @URL@ HTTP/1.1\r\nHost: x\r\n%s%s: %s\r\n\r\n" % (hname, ws, hval), "name-ws"))
             heads.append(("ws-first-header:%s:%r" % (hname, ws), "GET @URL@ HTTP/1.1\r\n%s%s: %s\r\nHost: x\r\n\r\n" % (ws, hname, hval), "leading-ws"))
+    for ws in (" ", "\t", "  \t "):
+        heads.append(("ws-only-line-before-cl:%r" % ws, "POST @URL@ HTTP/1.1\r\nHost: x\r\n%s\r\nContent-Length: 5\r\n\r\n" % ws, "leading-ws"))
+        heads.append(("ws-only-line-last:%r" % ws, "GET @URL@ HTTP/1.1\r\nHost: x\r\n%s\r\n\r\n" % ws, "leading-ws"))
+        heads.append(("ws-only-line-first:%r" % ws, "GET @URL@ HTTP/1.1\r\n%s\r\nHost: x\r\n\r\n" % ws, "leading-ws"))
     for tag, val in (("empty", ""), ("plus", "+5"), ("minus", "-5"), ("digits-alpha", "5a"), ("alpha-digits", "a5"), ("list", "5, 5"),
                      ("spaces", "5 5"), ("hex", "0x10"), ("overflow", "9" * 25), ("alpha", "abc"), ("float", "5.0"),
                      ("overflow-by-one", "18446744073709551616"), ("overflow-wraps-to-5", "18446744073709551621"),
@@ -951,6 +970,28 @@ def fam_c18(tier, seed):
         sc["tags"] = ["continue", "expect:%s" % exp, "len:%d" % n, pname, "pos:%d" % pos]
         scs.append(sc)
         k += 1
+    # chunked bodies, and handlers that ask for the body and only go on (read, answer) much later: the interim
+    # response must be there as soon as the body has been asked for, whatever the framing and the length
+    for exp in ("100-continue", "100-Continue", None):
+        for tag, kw in (("cl0", dict(framing="cl", body_len=0)), ("cl5", dict(framing="cl", body_len=5)), ("cl2000", dict(framing="cl", body_len=2000)),
+                        ("ch7", dict(framing="chunked", body_len=7, chunks=[4])), ("ch0", dict(framing="chunked", body_len=0)),
+                        ("ch3000", dict(framing="chunked", body_len=3000, chunks=[1000]))):
+            for pname, mk in (("ask-hold-read", lambda: dict(_with_read(respond(200, 3), ask=1, sizes=[600], to_eof=True), hold_phase=1)),
+                              ("ask-hold", lambda: dict(_with_read(respond(200, 3), ask=1), hold_phase=1)),
+                              ("readall", lambda: _with_read(respond(200, 3), sizes=[600], to_eof=True))):
+                for pos in (0, 1):
+                    if tier == "quick" and rng.random() > 0.5:
+                        continue
+                    m = Msg(method="POST", expect=exp, plan=mk(), **kw)
+                    msgs = ([Msg()] if pos == 1 else []) + [m]
+                    d, j, ln = conn(msgs, 0)
+                    me = d["msgs"][pos]
+                    if exp is not None and kw["body_len"] > 0 or (exp is not None and kw["framing"] == "chunked"):
+                        d["prog"] = [{"op": "send", "to": me["he"]}, {"op": "await", "frames": pos + 1}, {"op": "send", "to": ln}]
+                    sc = scenario("C18-%04d" % k, "C18", [(d, j, ln)], _single_app(), horizon_ms=100)
+                    sc["tags"] = ["continue", "expect:%s" % exp, tag, pname, "pos:%d" % pos]
+                    scs.append(sc)
+                    k += 1
     return scs
 
 def line_cuts(stream_hex, limit=4000):
@@ -1290,10 +1331,22 @@ def fam_c14(tier, seed):
     # headers the library itself interprets (when parsing or when answering), with odd values
     odd = ["", ";", ";q", ";q=", "q=", ",", ",,,", ";;;", "chunked;", "chunked;q", "chunked; q=", "x;q=1e400", "x;q=-0", "x;q=NaN",
            "a" * 5000, "\"", "=", " ", "chunked,", ",chunked", "identity;q=0.0000000000000000000001", "x;y;z;q;=", "\t", "100-continue;", "%00"]
+    # long weighted lists whose weights are not all numbers (the order of such a list is not a total order)
+    lrng = _rng("C14/lists", seed)
+    weights = ["NaN", "nan", "1", "0", "2", "0.5", "0.357", "inf", "-1", "1e400", "-NaN"]
+    long_lists = []
+    for n in (21, 50, 120):
+        for _ in range(3):
+            long_lists.append(", ".join("c%d;q=%s" % (i, lrng.choice(weights if lrng.random() < 0.6 else ["NaN"])) for i in range(n)))
+    long_lists.append(", ".join(["chunked;q=NaN", "identity;q=NaN"] * 30))
     for hname in ("TE", "Expect", "Connection", "Transfer-Encoding", "Upgrade", "Content-Type", "Accept", "Host", "Content-Encoding"):
-        for val in odd:
+        for val in odd + (long_lists if hname in ("TE", "Accept") else []):
             if tier == "quick" and rng.random() > 0.45 and hname not in ("TE",):
                 continue
+            if len(val) > 100 and val in long_lists:
+                val_tag = "weighted-list:%d" % (val.count(",") + 1)
+            else:
+                val_tag = None
             for h in ("none-respond", "none-drop"):
                 if h == "none-drop" and rng.random() > 0.4:
                     continue
@@ -1305,11 +1358,32 @@ def fam_c14(tier, seed):
                 d["msgs"][0]["plan"] = handlers[h]()
                 d["prog"] = [{"op": "send", "to": ln}, {"op": "sleep", "ns": 20 * MS}, {"op": "close"}]
                 sc = scenario("C14-%04d" % k, "C14", [(d, j, ln)], [serve("recv", "spawn")], horizon_ms=100, transport="tcp")
-                sc["tags"] = ["adversarial", "interpreted-header:%s" % hname, "value:%r" % val[:20], h]
+                sc["tags"] = ["adversarial", "interpreted-header:%s" % hname, "value:%r" % val[:20], h] + ([val_tag, "non-numeric-weights"] if val_tag else [])
                 sc["d2only"] = True
                 sc["judge"]["resonly"] = True
                 scs.append(sc)
                 k += 1
+    # the shapes of the application's answer: method x version x TE x declared / undeclared length x status class
+    # (answering never panics, whatever framing the request forces)
+    for meth, (ver, te), (rtag, rplan) in itertools.product(
+            ("GET", "HEAD", "POST"),
+            (("1.1", None), ("1.0", None), ("1.1", "identity"), ("1.1", "chunked"), ("1.1", "chunked;q=0, identity"), ("1.0", "chunked")),
+            (("undeclared5", lambda: respond(200, 5, declared=False)), ("undeclared0", lambda: respond(200, 0, declared=False)),
+             ("undeclared40000", lambda: respond(200, 40000, declared=False)), ("declared0", lambda: respond(200, 0)),
+             ("declared40000", lambda: respond(200, 40000)), ("s204-undeclared", lambda: respond(204, 5, declared=False)),
+             ("s304-undeclared", lambda: respond(304, 5, declared=False)), ("s100-undeclared", lambda: respond(100, 5, declared=False)))):
+        if tier == "quick" and rng.random() > 0.5:
+            continue
+        hs = [("Host", "x")] + ([("TE", te)] if te else []) + ([("Connection", "keep-alive")] if ver == "1.0" else [])
+        mm = Msg(method=meth, version=ver, headers=hs, plan=rplan())
+        d, j, ln = conn([mm], 0)
+        d["prog"] = [{"op": "send", "to": ln}, {"op": "sleep", "ns": 20 * MS}, {"op": "close"}]
+        sc = scenario("C14-%04d" % k, "C14", [(d, j, ln)], [serve("recv", "spawn")], horizon_ms=100, transport="tcp")
+        sc["tags"] = ["adversarial", "answer-shape", meth, "v" + ver, "te:%s" % te, rtag]
+        sc["d2only"] = True
+        sc["judge"]["resonly"] = True
+        scs.append(sc)
+        k += 1
     # many headers / long lines / odd bytes at head positions / truncation
     heads = []
     for n in (0, 100, 5000):
